@@ -1133,7 +1133,7 @@ class Time(Function):
 
         :return: time of the simulation: "t"
         """
-        return time
+        return "({})".format(time)
 
 
 class Lookup(Function):
@@ -1548,7 +1548,7 @@ class Pareto(Function):
         self.shape = shape
         self.scale = scale
 
-    def term(self, time="t"): return '(np.nan if ({} == 0) else (np.random.pareto({}) * {} ) )'.format(
+    def term(self, time="t"): return '(np.nan if ({} == 0) else (np.random.pareto({}) * ({}) ) )'.format(
         extractTerm(self.scale, time), extractTerm(self.shape, time), extractTerm(self.scale, time))
 
 
@@ -1584,5 +1584,5 @@ class Weibull(Function):
         self.shape = shape
         self.scale = scale
 
-    def term(self, time="t"): return '(np.random.weibull({}) * {} )'.format(
+    def term(self, time="t"): return '(np.random.weibull({}) * ({}) )'.format(
         extractTerm(self.shape, time), extractTerm(self.scale, time))
